@@ -382,6 +382,8 @@ package keeper
 //@   uses let d = denomAt(amountToUnlock, \i) in unlockDiffBounds(amountToUnlock[d], $accOV[ownerAddress][d], $accOV[ownerAddress][d] - cvaVested($accOV[ownerAddress][d], $accStart[ownerAddress], $accEnd[ownerAddress], fdiv($blockTime, 1000000000)))
 //@   uses forall v: int :: {cvaVested(v, $accStart[ownerAddress], $accEnd[ownerAddress], fdiv($blockTime, 1000000000))} vestedBounds(v, $accStart[ownerAddress], $accEnd[ownerAddress], fdiv($blockTime, 1000000000))
 //@   invariant vestingAcc != nil && vestingAcc.BaseVestingAccount != nil && vestingAcc.BaseVestingAccount.BaseAccount != nil
+//@   // the account object was decoded by this call: writing its fields touches nothing the caller holds
+//@   invariant fresh(vestingAcc) && fresh(vestingAcc.BaseVestingAccount)
 //@   invariant vestingAcc.StartTime == $accStart[ownerAddress] && vestingAcc.BaseVestingAccount.EndTime == $accEnd[ownerAddress]
 //@   invariant vestingAcc.BaseVestingAccount.DelegatedFree == $accDF[ownerAddress] && vestingAcc.BaseVestingAccount.DelegatedVesting == $accDV[ownerAddress]
 //@   invariant vestingAcc.BaseVestingAccount.BaseAccount.AccountNumber == $accNum[ownerAddress] && vestingAcc.BaseVestingAccount.BaseAccount.Sequence == $accSeq[ownerAddress]
